@@ -28,7 +28,9 @@ RULE = ('complete box of (n_inputs, nodes, cores, trials) with nodes*cores >= n_
         'trials >= max tasks per input; for each, the real run_parallel callback runs for every job '
         'index with multiprocessing.Process/cpu_count recorded; a configuration is non-trivial when '
         'tasks-per-input does not divide trials or tasks do not divide evenly over inputs '
-        '(a remainder path is exercised); distinct = distinct (n_inputs, nodes, cores, trials)')
+        '(a remainder path is exercised); distinct = distinct (n_inputs, nodes, cores, trials); the smallest and '
+        'largest trial count of every configuration also run with --delete-existing (jobs one after the other, '
+        'every task leaving its result file, all files must survive) and with n_cores omitted')
 ASSUMPTIONS = [
     'glob returns the same input list on every node (same shared directory)',
     'run_file(input, output, n) runs exactly n trials (that is C11/C12)',
